@@ -249,6 +249,60 @@ def check_references(u):
     return f
 
 
+def generate_code(u):
+    f = u.real_fn(GEN, "generate_code", props=("C01", "C02", "C03", "C04", "C05", "C06", "C07", "C08", "C15", "C16", "C17", "C18"))
+    rules.sig(f, ret="res", world=True)
+    rules.r1_logs(f, schema=LOG_SCHEMA)
+    rules.r8_thread(f, [r"CodeFinder::new\(", r"context\.cache_next_reference_id\("])
+    r10_call(f, "NextReferenceIdProcessor", "nextid")
+    r10_call(f, "InsertReferencesProcessor", "insert")
+    # R9: the run's counter is created once; its load is the mathematical value
+    for h in re.finditer(r"let\s+(\w+)\s*=\s*Arc::new\(\s*AtomicU32::new\(\s*(\w+)\s*\)\s*\)\s*;", f.mbody):
+        f.insert_at(h.end(), " proof { axiom_counter_new(w, %s); }" % h.group(2), "R9", "counter creation axiom")
+    for h in re.finditer(r"(\w+)\s*\.load\(\s*std::sync::atomic::Ordering::Relaxed\s*\)", f.mbody):
+        # occurrences inside log statements disappear with R1; the remaining ones read the counter
+        inside_log = any(ed.s <= h.start() < ed.e for ed in f.edits)
+        if not inside_log:
+            f.replace(h.start(), h.end(), "counter_load(&%s, Tracked(w))" % h.group(1), "R9", "counter load via sequential-counter shim")
+    cfg = "context.config"
+    tmiss = "tree_missing(final(w).files, old(w).fs, %s, final(w).files.len() as int)" % cfg
+    tmax = "tree_max(final(w).files, old(w).fs, %s, final(w).files.len() as int)" % cfg
+    f.requires += [
+        "!old(w).check_mode",
+        "old(w).fs == old(w).orig", "old(w).intended == Map::<Seq<char>, Seq<u8>>::empty()", "old(w).alloc == Map::<Seq<char>, int>::empty()",
+        "old(w).protected == Set::<Seq<char>>::empty()", "old(w).files == Seq::<Seq<char>>::empty()",
+        "!is_temp(lock_path())",
+        # assumption: a lock value, when present, was written by Breadlog (first ID is 1)
+        "context.cached_next_reference_id.is_some() ==> context.cached_next_reference_id.unwrap() >= 1",
+    ]
+    f.ensures += [
+        ("C07.frame", "atomic_inv(*final(w))"),
+        # every ID written is one of alloc[p] .. alloc[p]+n(p) of a replaced file; ranges are disjoint and lie in 1 ..= u32::MAX
+        ("C01.unique", "alloc_inv(*final(w), %s, 1)" % cfg),
+        ("C01.nowrap", "forall|p: Seq<char>| #[trigger] final(w).alloc.dom().contains(p) ==> final(w).alloc[p] + n_of(*final(w), %s, p) <= u32::MAX" % cfg),
+        # with a lock the first ID is the lock's value; without one every new ID is greater than every existing one
+        ("C01.unique", "context.cached_next_reference_id.is_some() ==> forall|p: Seq<char>| #[trigger] final(w).alloc.dom().contains(p) ==> final(w).alloc[p] >= context.cached_next_reference_id.unwrap()"),
+        ("C01.unique", "context.cached_next_reference_id.is_none() ==> forall|p: Seq<char>| #[trigger] final(w).alloc.dom().contains(p) ==> final(w).alloc[p] > %s" % tmax),
+        ("C08.fail", "res.is_ok() ==> final(w).files.len() > 0 && all_edited(*final(w), %s, final(w).files.len() as int)" % cfg),
+        ("C06.noop", "%s == 0 ==> forall|p: Seq<char>| p != lock_path() ==> (#[trigger] final(w).fs.dom().contains(p)) == old(w).fs.dom().contains(p)" % tmiss),
+        ("C06.noop", "%s == 0 ==> forall|p: Seq<char>| p != lock_path() ==> (#[trigger] final(w).fs[p]) == old(w).fs[p]" % tmiss),
+        ("C16.nocache", "!%s.use_cache ==> final(w).fs.dom().contains(lock_path()) == old(w).fs.dom().contains(lock_path()) && final(w).fs[lock_path()] == old(w).fs[lock_path()]" % cfg),
+        # the lock covers every ID written (D10/D12: unless the lock write itself failed)
+        ("C02.step", "%s.use_cache && !(final(w).alloc.dom() =~= Set::<Seq<char>>::empty()) ==> "
+         "(final(w).fs.dom().contains(lock_path()) && final(w).fs[lock_path()] == lock_bytes(final(w).counter as u32)) || lock_write_failed()" % cfg),
+        ("C04.frame", "final(w).orig == old(w).orig && final(w).check_mode == old(w).check_mode && final(w).handlers == old(w).handlers"),
+    ]
+    # hints
+    s0, e0, _ = f.find_one("if let Some(finder) = CodeFinder::new(")
+    ob = f.mbody.index("{", e0)
+    f.insert_at(s0, "let ghost wpre = *w;\n    ")
+    f.insert_at(ob + 1, " proof { assert(w.fs == wpre.fs);"
+                " assert forall|p: Seq<char>| w.protected.contains(p) implies w.fs.dom().contains(p) && w.orig.dom().contains(p) by {}"
+                " assert(atomic_inv(*w)); assert(alloc_inv(*w, %s, 1)); }" % cfg)
+    f.before_stmt("return Ok(0);", "proof { lemma_all_edited_when_none_missing(*w, %s); }\n                    " % cfg)
+    return f
+
+
 def build():
     u = Unit("generate")
     u.include("shims/prelude.rs")
@@ -272,6 +326,7 @@ def build():
     check_references(u)
     nextid_driver(u)
     insert_driver(u)
+    generate_code(u)
     u.raw("}\n")
     u.raw("fn main() {}\n")
     u.assume("the tree has fewer than 2^32 recognised statements per file and in total (u32/usize sums of per-file counts cannot overflow)")
